@@ -188,6 +188,41 @@ def run(tier, seed):
         rep.case({'algorithm': nm, 'space': meta, 'kind': kindb}, True)
       except Exception as e:  # pylint: disable=broad-except
         rep.count('refused_%s_%s_%s' % (nm, kindb, type(e).__name__))
+  # ---- the default / centre seed that GP_UCB_PE, GAUSSIAN_PROCESS_BANDIT, BOCS and HARMONICA hand out first in an empty study
+  from vizier._src.pythia import suggest_default
+  from vizier import pythia as _pythia
+  for di in range(40 if tier == 'quick' else 400):
+    prob, meta = spaces.gen_space(r, vz, nmax=4)
+    rep.count('default_seed_space')
+    try:
+      dflt = {k: v.value for k, v in suggest_default.get_default_parameters(prob.search_space).items()}
+    except Exception as e:  # pylint: disable=broad-except
+      viol('get_default_parameters raised %s on a valid search space' % type(e).__name__, {'space': meta, 'error': str(e)[:200]})
+      continue
+    rep.case({'default_seed': dflt, 'space': meta}, any(k_[0] == 'f' for k_ in meta.values()))
+    probs = spaces.check_suggestion(meta, dflt)
+    if probs:
+      viol('the default / centre seed of an empty study lies outside the search space: ' + '; '.join(probs[:2]), {'space': meta, 'suggested': dflt})
+    # through the decorator, as the service's policies use it
+    class _P(_pythia.Policy):
+      def suggest(self, request):
+        return _pythia.SuggestDecision([])
+      def early_stop(self, request):
+        return _pythia.EarlyStopDecisions()
+    pol = _P()
+    pol.suggest = suggest_default.seed_with_default(pol.suggest)
+    try:
+      from vizier.service import pyvizier as _svz
+      sc_ = _svz.StudyConfig.from_problem(prob)
+      req = _pythia.SuggestRequest(study_descriptor=vz.StudyDescriptor(config=sc_, guid='g', max_trial_id=0), count=1)
+      dec = pol.suggest(req)
+      for sg in dec.suggestions:
+        probs = spaces.check_suggestion(meta, {k: v.value for k, v in sg.parameters.items()})
+        if probs:
+          viol('seed_with_default: the first suggestion of an empty study lies outside the search space: ' + '; '.join(probs[:2]),
+               {'space': meta, 'suggested': {k: v.value for k, v in sg.parameters.items()}})
+    except Exception as e:  # pylint: disable=broad-except
+      rep.count('seed_with_default_refused_%s' % type(e).__name__)
   b2, c2 = model_part(rep, tier, r)
   broke = ((broke or '') + ' ' + (b2 or '')).strip() or None
   concrete = concrete or c2
